@@ -34,6 +34,9 @@ SEQ_POOL = [
     {'y': [2, 1, 1], 'pred': [[0., .5, .25], [-1., -1., -2.], [0., 9., 0.]], 'domain_id': 0},
 ]
 SEQ_POISON = {'y': [1, 1, 2], 'pred': [[9., 0., 0.], [0., 0., 9.], [0., 9., 0.]], 'domain_id': 1}
+# legal but extreme padded content: finite logits whose float32 statistics overflow (loss = inf, inf - inf inside)
+EXTREME = {'cls': {'y': 1, 'pred': [3e38, -3e38, 0.0], 'domain_id': 0},
+           'seq': {'y': [1, 2, 1], 'pred': [[3e38, -3e38, 0.], [3e38, 3e38, -3e38], [-3e38, -3e38, 3e38]], 'domain_id': 0}}
 
 
 def cls_specs():
@@ -138,6 +141,8 @@ def make_batch(pool, poison, idxs, pad, kind, with_mask=True, layout='tail'):
       pads = [z] * pad
     elif kind == 'copy':
       pads = [rows[j % n] if n else poison for j in range(pad)]
+    elif kind == 'extreme':
+      pads = [EXTREME['seq' if np.asarray(pool[0]['y']).ndim else 'cls']] * pad
     else:
       pads = [poison] * pad
   if layout == 'tail' or not pads:
@@ -427,7 +432,7 @@ TIMEOUTS = {k: 900 for k in SUBS}
 def plan(ctx):
   th = ctx.tier == 'thorough'
   ctx.rule = ('batch level: all example sequences of length <=%d over a 5-example pool per family, as one batch, x '
-              'padding rows {0,1,2} x padded content {zeros, copy of a real row, distinct in-domain poison row}; model '
+              'padding rows {0,1,2} x padded content {zeros, copy of a real row, distinct in-domain poison row, finite rows whose statistics overflow}; model '
               'level: sequences of length <=%d x all compositions into consecutive batches x all batch orders x padding; '
               'monoid: all triples of pool statistics + zero for every metric; distinct = case tuple; non-trivial = '
               'more than one example or at least one padded row' % (4, 4 if th else 3))
@@ -445,6 +450,8 @@ def plan(ctx):
           continue
         bl.append({'family': fam, 'n': n, 'pad': pad, 'kind': kind, 'direct': n <= (3 if th else 2) and pad <= 1})
       bl.append({'family': fam, 'n': max(n, 1), 'pad': 0, 'kind': 'zeros', 'nomask': True})
+      if n <= 3:
+        bl.append({'family': fam, 'n': n, 'pad': 1 + n % 2, 'kind': 'extreme', 'direct': n <= 2})
       if 1 <= n <= 3:
         for layout in ('front', 'interleaved'):
           bl.append({'family': fam, 'n': n, 'pad': 2 if n > 1 else 1, 'kind': 'poison', 'layout': layout})
